@@ -16,6 +16,12 @@ def main():
     ap.add_argument('--tier', default='quick'); ap.add_argument('--out')
     a = ap.parse_args()
     ctx = Ctx(a.prop, a.seed, a.tier, a.out)
+    cov = None
+    try:
+        from harness import pycov
+        cov = pycov.start()
+    except Exception:  # coverage of the anchored Python files is a by-product, never a reason to fail
+        cov = None
     mod = importlib.import_module('harness.props.' + a.prop.lower())
     try:
         mod.run(ctx)
@@ -23,6 +29,12 @@ def main():
         tb = traceback.format_exc()
         sys.stderr.write(tb)
         ctx.fail('correspondence', 'harness', 'exception', 'property module raised: ' + tb.splitlines()[-1], detail=tb[-3000:])
+    if cov is not None:
+        try:
+            from harness import pycov
+            ctx.extra['anchor_py_coverage'] = pycov.report(cov, a.prop)
+        except Exception as e:
+            ctx.extra['anchor_py_coverage'] = {'error': repr(e)}
     res = ctx.result()
     if a.out:
         json.dump(res, open(a.out, 'w'), default=str)
